@@ -14,7 +14,10 @@ use std::{
     time::Duration,
 };
 
-use klukai_types::{api::sqlite::ChangeType, broadcast::ChangeV1};
+use klukai_types::{
+    api::{SqliteParam, Statement, sqlite::ChangeType},
+    broadcast::ChangeV1,
+};
 use rand::{Rng, SeedableRng, seq::SliceRandom};
 use serde_json::{Value, json};
 
@@ -34,13 +37,13 @@ pub fn check() -> Check {
         spec: CheckSpec {
             prop: "C14",
             level: "exploration",
-            rule: "execution = one real node with update-feed listeners on 1-3 tables attached after some initial data + a history of 10-30 operations over few keys (6 parents x 4 child keys x 4 groups): local transactions (upserts, column updates, deletes, re-inserts, key changes, several statements on the same key), bursts of 2-5 transactions on one or two keys whose broadcasts are delayed at a hook so that they overtake each other on the way to the feed, changesets authored by a second real node delivered complete / cut into chunks (buffered) / late / out of order / several versions per ingest call (so deletes arrive before the inserts they supersede and stale changes arrive after newer local ones); after an operation (p=0.5) and at the end: logical quiescence of the feed task (hook log), read exactly the notifications the upd.notify hook announced, then (1) every key whose row differs between the snapshots taken around an operation since the last checkpoint has a notification in that interval, (2) for every key notified so far the last notification says delete iff the row is absent now, (3) causal lengths of the notifications delivered for one key are non-decreasing; non-trivial = execution with notifications of both kinds and >= 3 checkpoints; distinct by hash of the history",
+            rule: "execution = one real node with update-feed listeners on 1-3 tables attached after some initial data + a history of 10-30 operations over few keys (6 parents x 4 child keys x 4 groups): local transactions (upserts, column updates, deletes, re-inserts, key changes, several statements on the same key), bursts of 2-5 transactions on one or two keys whose broadcasts are delayed at a hook so that they overtake each other on the way to the feed, in a quarter of the executions with the feed's bounded causal-length cache (2000 keys, cut to 1000) filled to just under its bound beforehand (burst keys entered first or last) and transactions bringing 8-25 new keys inside the burst so that the cut happens between the notifications of one key, changesets authored by a second real node delivered complete / cut into chunks (buffered) / late / out of order / several versions per ingest call (so deletes arrive before the inserts they supersede and stale changes arrive after newer local ones); after an operation (p=0.5) and at the end: logical quiescence of the feed task (hook log), read exactly the notifications the upd.notify hook announced, then (1) every key whose row differs between the snapshots taken around an operation since the last checkpoint has a notification in that interval, (2) for every key notified so far the last notification says delete iff the row is absent now, (3) causal lengths of the notifications delivered for one key are non-decreasing; non-trivial = execution with notifications of both kinds and >= 3 checkpoints; distinct by hash of the history",
             assumptions: &[
                 "the feed carries no causal length: clause 3 is observed through the upd.notify hook placed where the notification is handed to the listener channel",
                 "the bounded cache (2000 keys) is not rolled over by this key domain; cache eviction is exercised only by the thorough tier's wide-key executions",
             ],
             min_nontrivial: 10,
-            required_stats: &["listeners", "checkpoints", "notifications", "update_notifications", "delete_notifications", "changed_keys_checked", "fate_checks", "remote_complete", "remote_buffered", "local_bursts"],
+            required_stats: &["listeners", "checkpoints", "notifications", "update_notifications", "delete_notifications", "changed_keys_checked", "fate_checks", "remote_complete", "remote_buffered", "local_bursts", "bursts_pushing_the_cache_past_its_bound"],
         },
         budget: (70, 900),
         workers: (12, 14),
@@ -147,6 +150,12 @@ pub async fn one_execution(seed: u64) -> Result<ExecOut, String> {
     let mut tables: Vec<&str> = all.to_vec();
     tables.shuffle(&mut rng);
     tables.truncate(rng.random_range(1..=3));
+    // a quarter of the executions push the feed of g past the bound of its causal-length cache
+    // (2000 keys, cut back to 1000) while bursts on one or two keys are in flight
+    let large = rng.random_range(0..4) == 0;
+    if large && !tables.contains(&"g") {
+        tables[0] = "g";
+    }
     let mut listeners: Vec<Listener> = vec![];
     for t in &tables {
         let conn = subs::listen_updates(&node, &sc, t).await?;
@@ -162,6 +171,34 @@ pub async fn one_execution(seed: u64) -> Result<ExecOut, String> {
         stat("listeners", 1);
     }
     history.push(format!("listen {tables:?}"));
+    // the monitor's estimate of how many keys the cache of g's feed holds
+    let mut cache_est: i64 = 0;
+    let mut next_fresh: i64 = 100_000;
+    let fresh_keys = |from: i64, n: i64| -> Statement {
+        Statement::WithParams(
+            "WITH RECURSIVE n(i) AS (SELECT ? UNION ALL SELECT i + 1 FROM n WHERE i < ?) INSERT INTO g (gid, label, w) SELECT i, 'fresh', 0 FROM n".into(),
+            vec![SqliteParam::Integer(from), SqliteParam::Integer(from + n - 1)],
+        )
+    };
+    if large {
+        stat("large_executions", 1);
+        if rng.random_range(0..2) == 0 {
+            // the keys of the bursts enter the cache first (oldest entries) ...
+            let stmts = vec![
+                Statement::Simple("INSERT INTO g (gid, label, w) VALUES (1, 'early', 0) ON CONFLICT (gid) DO UPDATE SET w = 0".into()),
+                Statement::Simple("INSERT INTO g (gid, label, w) VALUES (2, 'early', 0) ON CONFLICT (gid) DO UPDATE SET w = 0".into()),
+            ];
+            subs::local_tx(&mut node, stmts).await?;
+            cache_est += 2;
+            history.push("early g1 g2".into());
+        }
+        // ... or only after the filling (newest entries)
+        let n = 1975 + rng.random_range(0..20) - cache_est;
+        subs::local_tx(&mut node, vec![fresh_keys(next_fresh, n)]).await?;
+        next_fresh += n;
+        cache_est += n;
+        history.push(format!("fill {n}"));
+    }
 
     let n_ops = rng.random_range(10..=30);
     let mut checkpoints = 0u64;
@@ -175,19 +212,45 @@ pub async fn one_execution(seed: u64) -> Result<ExecOut, String> {
             let (status, _) = subs::local_tx(&mut node, stmts).await?;
             op_desc = format!("local[{}]={status}", info.desc.join(","));
             stat("local_txs", 1);
-        } else if choice < 55 {
+        } else if choice < 55 || (large && choice < 75) {
             // several transactions on the same few keys in quick succession: they commit one
             // after the other, but their broadcasts (which feed the update feeds) are separate
             // tasks and can overtake each other
-            let table = all[rng.random_range(0..all.len())];
+            let table = if large { "g" } else { all[rng.random_range(0..all.len())] };
+            if large && cache_est < 1900 {
+                // back to just under the bound, in calm
+                let n = 1975 + rng.random_range(0..20) - cache_est;
+                subs::local_tx(&mut node, vec![fresh_keys(next_fresh, n)]).await?;
+                next_fresh += n;
+                cache_est += n;
+            }
             klukai_types::verif::set_delay("bcast.before_read", 300, 5_000);
             klukai_types::verif::set_delay("bcast.before_match", 700, 20_000);
             let mut versions = vec![];
             let mut descs = vec![];
-            for _ in 0..rng.random_range(2..=5) {
+            let n_tx = rng.random_range(2..=5);
+            // in the large executions one or two transactions of the burst bring new keys
+            let fresh_at: Vec<usize> = if large { (0..rng.random_range(1..=2)).map(|_| rng.random_range(0..n_tx)).collect() } else { vec![] };
+            let est_before = cache_est;
+            for ti in 0..n_tx {
+                if fresh_at.contains(&ti) {
+                    let n = rng.random_range(8..=25);
+                    let (status, resp) = node.tx(vec![fresh_keys(next_fresh, n)]).await;
+                    next_fresh += n;
+                    cache_est += n;
+                    descs.push(format!("fresh{n}={status}"));
+                    if status == 200
+                        && let Some(v) = resp.version
+                    {
+                        versions.push(v);
+                    }
+                }
                 let mut info = TxInfo::default();
                 let stmts: Vec<_> = (0..rng.random_range(1..=2)).map(|_| subs::random_stmt_small_keys(&mut rng, table, &mut info)).collect();
                 let (status, resp) = node.tx(stmts).await;
+                if large {
+                    cache_est += 2; // at most: a key of the burst that had been cut from the cache
+                }
                 descs.push(format!("{}={status}", info.desc.join(",")));
                 if status == 200
                     && let Some(v) = resp.version
@@ -199,6 +262,10 @@ pub async fn one_execution(seed: u64) -> Result<ExecOut, String> {
             klukai_types::verif::clear_delays();
             op_desc = format!("burst[{}]", descs.join(" | "));
             stat("local_bursts", 1);
+            if large && est_before <= 2000 && cache_est > 2000 {
+                stat("bursts_pushing_the_cache_past_its_bound", 1);
+                cache_est = 1000 + (cache_est - 2000).max(0);
+            }
         } else {
             let stmts: Vec<_> = (0..rng.random_range(1..=4)).map(|_| subs::random_stmt(&mut rng, &all, &mut info)).collect();
             let (status, resp) = src.tx(stmts).await;
